@@ -71,6 +71,8 @@ theorem malformed_rejected :
     -- adjacent operands
     rejected "=1 2" ∧ rejected "=(1)2" ∧ rejected "=(1)(2)" ∧ rejected "=\"a\"1" ∧ rejected "=SUM(1 SUM(2))" ∧
     rejected "=SUM(1{2})" ∧ rejected "=(A1)B1" ∧
+    -- an operand behind a percent sign, also with a blank or a colon between them (`x% y` was read as `(x y)%`)
+    rejected "=A1%B1" ∧ rejected "=A1% B1" ∧ rejected "=A1%  (B1)" ∧
     -- ragged arrays
     rejected "={1,2;3}" ∧ rejected "={1;2,3}" ∧
     -- not a formula at all
